@@ -6,3 +6,5 @@ import PlasVerif.Properties.C18
 import PlasVerif.Properties.C09
 import PlasVerif.Properties.C08
 import PlasVerif.Properties.C15
+import PlasVerif.Properties.C07
+import PlasVerif.Properties.C16
